@@ -178,6 +178,21 @@ func (x *Exec) libraryModel(st *State, name string, args []Val, sig *types.Signa
 				return x.freshResults(st, sig), true
 			}
 		}
+		if len(args) == 2 && args[1].Inner != nil && args[1].Inner.Loc != nil && args[1].Inner.Loc.Kind == LCell {
+			// target is a local variable (slice, map, scalar): it receives an arbitrary well-formed
+			// value of its type; decoded containers may hold nil elements ("[null]")
+			l := args[1].Inner.Loc
+			if _, isStruct := l.Elem.Underlying().(*types.Struct); !isStruct {
+				x.trusted["model of encoding/json.Unmarshal: writes only the variable its second argument points to (arbitrary well-formed value)"]++
+				oa := x.heap(st, "$alloc", "Int")
+				na := x.havocHeap(st, "$alloc", "Int")
+				st.assume(fmt.Sprintf("(>= %s %s)", na, oa))
+				fv := x.freshConst(st, "json", x.ctx.sortOf(l.Elem))
+				x.assumeWF(st, fv, l.Elem)
+				st.cells[l.Cell] = x.valFromTerm(fv, l.Elem)
+				return x.freshResults(st, sig), true
+			}
+		}
 	case "encoding/json.Marshal":
 		// the text produced for a struct value of a named type T is json_T(value) (a spec function
 		// declared by the contracts: `uninterp json_T(a T) string`); nothing else is assumed about it
@@ -972,7 +987,12 @@ func (x *Exec) guardOfLoc(st *State, l *Loc) *GuardInfo {
 			}
 		}
 	}
-	return &GuardInfo{Lock: "(* 3 " + lockT + ")", Desc: typeShort(l.Parent.Elem) + "." + stt.Field(l.Field).Name(), Tags: g.Tags}
+	gi := &GuardInfo{Lock: "(* 3 " + lockT + ")", Desc: typeShort(l.Parent.Elem) + "." + stt.Field(l.Field).Name(), Tags: g.Tags}
+	if l.Parent.Kind == LRef && l.Parent.Ref != "" {
+		// an object allocated by this very call is not shared yet (constructors): no lock needed
+		gi.FreshRef = l.Parent.Ref
+	}
+	return gi
 }
 
 func typeShort(t types.Type) string {
@@ -1008,7 +1028,11 @@ func (x *Exec) guardLockCheck(st *State, ins ssa.Instruction, g *GuardInfo, writ
 	if write {
 		need, mode = "2", "write"
 	}
-	x.oblige(st, "lock", x.ordinalFor(ins, "lock", g.Desc+"/"+what), fmt.Sprintf("(>= (select %s %s) %s)", x.held(st), g.Lock, need), append([]string{"C19"}, g.Tags...), fmt.Sprintf("%s of %s (%s) with its lock held", mode, g.Desc, what))
+	goal := fmt.Sprintf("(>= (select %s %s) %s)", x.held(st), g.Lock, need)
+	if g.FreshRef != "" {
+		goal = fmt.Sprintf("(or (>= %s $alloc@e0) %s)", g.FreshRef, goal)
+	}
+	x.oblige(st, "lock", x.ordinalFor(ins, "lock", g.Desc+"/"+what), goal, append([]string{"C19"}, g.Tags...), fmt.Sprintf("%s of %s (%s) with its lock held (or on an object allocated by this call)", mode, g.Desc, what))
 }
 
 // guardCheck: access through an address (load/store of the field itself)
